@@ -4,14 +4,14 @@ import json
 import random
 
 from vlib import core, pipeline as P, diffrun, compilefail
-from vgen import gen as G, emit as E, macros as M
+from vgen import gen as G, emit as E, macros as M, xform as X
 from vgen.ast import *
 
 LEVEL = 'exploration'
 
 
 def sizes(ctx):
-    return dict(cases=32, inputs=16, recursive=12) if ctx.tier == 'quick' else dict(cases=320, inputs=60, recursive=60)
+    return dict(cases=80, inputs=14, recursive=12) if ctx.tier == 'quick' else dict(cases=640, inputs=50, recursive=60)
 
 
 def call_stats(prog):
@@ -60,10 +60,23 @@ def gen_cases(ctx):
             continue
         if G.check_scoping(exp) or not exp.rules:
             continue
+        if max(len(X.expand_disjunctions(r.body)[0]) for r in exp.rules) > 9 or sum(len(X.expand_disjunctions(r.body)) for r in exp.rules) > 40:
+            continue        # keep expansions small: long bodies are exponentially expensive for every evaluator
+        # pre-screen: the naive reference must get through a dense input cheaply, else the case is too expensive
+        from vgen import ref as R
+        probe = list(dict.fromkeys(G.gen_input(random.Random(1), exp, input_rels, dom, kind='dense')))
+        old_limit = R.Budget.limit
+        R.Budget.limit = 150000
+        try:
+            R.evaluate(exp, G.input_to_dict(probe))
+        except R.RefError:
+            continue
+        finally:
+            R.Budget.limit = old_limit
         vs = [E.Variant('mac', prog, 'ascent'), E.Variant('exp', exp, 'ascent'), E.Variant('macpar', prog, 'ascent_par')]
         case = P.Case('c%d' % n, exp, vs, meta={'kind': 'macro', 'stats': call_stats(prog)})
         for ii in range(sz['inputs']):
-            rows = G.gen_input(rng, exp, input_rels, dom, kind=rng.choice(['dense', 'directed', 'sparse', 'dense']))
+            rows = G.gen_input(rng, exp, input_rels, dom, kind=rng.choice(['dense', 'directed', 'dense', 'dense']))
             rows = list(dict.fromkeys(rows))     # no duplicate rows: expansions have long bodies, duplicates multiply their cost
             for v in vs:
                 case.jobs.append(P.Job('%s_i%d_%s' % (case.name, ii, v.name), case, v, rows))
